@@ -1,5 +1,6 @@
 import MidiModel.Live
 import MidiModel.Generated.TestdrvGo
+import MidiModel.Generated.MidicatdrvGo
 import Props.C08_Code
 /-!
 # C14, tie to the source: the option filter of the test driver
@@ -73,6 +74,26 @@ theorem code_filter_is_keep (c : Cfg) (tr : List testdrv.in'.Listen.arg_NewReade
       .ok { conf := toConf c, trace := if keep c (m, ms) then tr ++ [.onMsg m ms] else tr } := by
   obtain ⟨sx, buf, as, tc⟩ := c
   unfold testdrv.in'.Listen.arg_NewReader keep
+  have okb : ∀ {α β : Type} (x : α) (f : α → Except String β), (Except.ok x >>= f) = f x := fun _ _ => rfl
+  cases m with
+  | nil =>
+    simp only [is_nil, okb, toConf]
+    simp [typeIs, UnknownMsg]
+    rfl
+  | cons b r =>
+    obtain ⟨k1, k2, k3⟩ := type_classes b
+    simp only [is_cons, okb, toConf, k1, k2, k3]
+    cases as <;> cases tc <;> cases sx <;>
+      by_cases h1 : b = 254 <;> by_cases h2 : b = 248 <;> by_cases h3 : b = 240 <;> by_cases h4 : b = 247 <;>
+      simp [h1, h2, h3, h4] <;> first | rfl | omega
+
+/-- the process-backed driver carries a textual copy of the filter (`v2/drivers/midicatdrv/in.go`, the function literal
+    stored in `listener`): the same theorem for its translation -/
+theorem code_midicatdrv_filter_is_keep (c : Cfg) (tr : List midicatdrv.in'.Listen.listener.Ev) (m : Bytes) (ms : Int) :
+    midicatdrv.in'.Listen.listener { conf := toConf c, trace := tr } m ms =
+      .ok { conf := toConf c, trace := if keep c (m, ms) then tr ++ [.onMsg m ms] else tr } := by
+  obtain ⟨sx, buf, as, tc⟩ := c
+  unfold midicatdrv.in'.Listen.listener keep
   have okb : ∀ {α β : Type} (x : α) (f : α → Except String β), (Except.ok x >>= f) = f x := fun _ _ => rfl
   cases m with
   | nil =>
